@@ -9,7 +9,8 @@ from ..core import Result, viol
 ID = 'C19'
 RULE = ('cases = generated schedules: a worker function of a generated kind {returns a value, raises one of 13 exception types '
         'with arguments, swallows the first injected interrupt and continues for tau, blocks in native sleep, retries in a '
-        'broad except-Exception loop, nested run_timeout with inner limit above/below the inner duration} whose completion '
+        'broad except-Exception loop, nested run_timeout with inner limit above/below the inner duration, nested run_timeout whose inner limit lies 0.3 s '
+        'behind the outer one while the inner function runs 0.5 s past that (outer expires first)} whose completion '
         'is set to limit + delta, delta on a dense grid around 0 (+/- 1..60 ms) and far values, each repeated, limits 40-120 '
         'ms plus 400-500 ms limits with completion >= 300 ms early (every exception type: decidedly in time); followed by a '
         'back-to-back fast call; all 16 shards run concurrently on purpose (load); oracle = outcome trichotomy (value only '
@@ -22,7 +23,8 @@ RULE = ('cases = generated schedules: a worker function of a generated kind {ret
 BUDGET = {'quick': 25, 'thorough': 1200}
 EXC_TYPES = ['ValueError', 'RuntimeError', 'KeyError', 'IndexError', 'ZeroDivisionError', 'MemoryError', 'OSError',
              'AssertionError', 'StopIteration', 'RecursionError', 'NotImplementedError', 'ArithmeticError', 'LookupError']
-KINDS = ['return', 'raise', 'swallow', 'native', 'retry_loop', 'nested_inner_times_out', 'nested_inner_returns']
+KINDS = ['return', 'raise', 'swallow', 'native', 'retry_loop', 'nested_inner_times_out', 'nested_inner_returns',
+         'nested_outer_first']
 DELTAS = [-200, -60, -30, -15, -8, -4, -2, -1, 0, 1, 2, 4, 8, 15, 30, 60, 200, 500]
 
 
@@ -38,6 +40,12 @@ def fixed_cases(tier):
     for r in range(3 if tier == 'quick' else 12):
         yield {'kind': 'nested_inner_times_out', 'limit_ms': 400, 'delta_ms': 500, 'exc': 'ValueError', 'tau_ms': 5,
                'rep': r}
+    # nested limiter whose own limit lies 0.3 s behind the outer one while the inner function runs 0.5 s past even that:
+    # the outer interrupt is pending long before the inner wait ends, so the inner limiter is interrupted *while waiting*
+    # (not while closing its pool: KF24's race cannot occur here) and must stop its own worker before passing it on
+    for r in range(3 if tier == 'quick' else 12):
+        yield {'kind': 'nested_outer_first', 'limit_ms': (80, 120, 40)[r % 3], 'delta_ms': 0, 'exc': 'ValueError',
+               'tau_ms': 5, 'rep': r}
     # decidedly in time (>= 300 ms before a 400-500 ms limit): the own result / every own exception type must come back
     for limit, d in ((400, -380), (500, -320)):
         yield {'kind': 'return', 'limit_ms': limit, 'delta_ms': d, 'exc': 'ValueError', 'tau_ms': 30, 'rep': 0}
@@ -136,7 +144,20 @@ def make_function(case, state, run_timeout, t0):
         done('returned')
         return (value, r)
 
-    return {'return': f_return, 'raise': f_raise, 'swallow': f_swallow, 'native': f_native, 'retry_loop': f_retry,
+    def f_nested_outer_first():
+        state.thread = threading.current_thread()
+
+        def inner():
+            _busy_until(state, t0+limit+0.8, attr='inner_beats')
+            return 'inner'
+        try:
+            r = run_timeout(limit+0.3, inner)
+        except TimeoutError:
+            r = 'inner_timeout'
+        done('returned')
+        return (value, r)
+
+    return {'nested_outer_first': f_nested_outer_first, 'return': f_return, 'raise': f_raise, 'swallow': f_swallow, 'native': f_native, 'retry_loop': f_retry,
             'nested_inner_times_out': lambda: f_nested(True), 'nested_inner_returns': lambda: f_nested(False)}[kind], \
         value, exc_cls
 
